@@ -124,8 +124,11 @@ class RequestCase(Case):
                 objs.setflags(write=False)
                 if cons is not None:
                     cons.setflags(write=False)
-            res = EvaluatorResult(objectives=objs, constraints=cons)
-            given = {"objectives": objs, "constraints": cons, "snap_o": snapshot(objs), "snap_c": snapshot(cons), "out": out}
+            import numpy as real_np
+            info = {"tag": real_np.arange(v.shape[0], dtype=float) + 100.0 * (src + 1)}   # per-row bookkeeping of the evaluator
+            res = EvaluatorResult(objectives=objs, constraints=cons, evaluation_info=info)
+            given = {"objectives": objs, "constraints": cons, "snap_o": snapshot(objs), "snap_c": snapshot(cons), "out": out,
+                     "info": info["tag"], "info_copy": info["tag"].copy()}
             if self.memo:
                 memo[src], memo[("g", src)] = res, given
             calls.append({"variables": variables, "context": context, "result": res, "given": given})
@@ -293,6 +296,19 @@ class RequestCase(Case):
                     shared = any(np.shares_memory(raw(arr), raw(call["given"][k])) for call in a["calls"]
                                  for k in ("objectives", "constraints") if call["given"][k] is not None)
                     props.append((f"res{ri}.{nm}.does_not_alias_evaluator_arrays", SB(not shared)))
+        # evaluation info is part of the delivered snapshot too: a write-protected copy of the labelled rows
+        import numpy as real_np
+        for ri, res in enumerate(a["results"]):
+            for item in res:
+                tag = item.evaluations.evaluation_info.get("tag") if item.evaluations.evaluation_info else None
+                props.append((f"res{ri}.evaluation_info.delivered", SB(tag is not None)))
+                if tag is None:
+                    continue
+                tag = real_np.asarray(tag)
+                shared = any(real_np.shares_memory(tag, call["given"]["info"]) for call in a["calls"])
+                props.append((f"res{ri}.evaluation_info.write_protected_copy", SB(not tag.flags.writeable and not shared)))
+                known = real_np.concatenate([call["given"]["info_copy"] for call in a["calls"]])
+                props.append((f"res{ri}.evaluation_info.values_are_the_evaluators", SB(bool(real_np.isin(tag.ravel(), known).all()))))
         # memoising evaluator: the second round reports what the first did
         if self.memo:
             half = len(a["results"]) // 2
@@ -408,7 +424,7 @@ def build_cases(tier):
 META = dict(
     bounds={"quick": "R<=3, P<=2, K<=2, C<=1, batch<=2, N=2; every evaluator number symbolic in [-100,100]; scales in [0.1,10]",
             "thorough": "R=3, P=2 with scalers, filters and memoisation combined",
-            "outside": "larger shapes; evaluation_info arrays; evaluators that return views of one another"},
+            "outside": "larger shapes; evaluators that return views of one another"},
     stubs=["evaluator: returns a distinct symbol per (call, row, column); second run of each scenario replaces the values of inactive entries by other symbols; optionally memoises and returns the same EvaluatorResult object",
            "sampler plug-in `stub` (concrete design)"],
     assumptions=["objective/constraint transforms are the linear scalers users write (tests/test_optimizer.py)"],
